@@ -231,6 +231,25 @@ class BStr(object):
         if isinstance(o, str): return BStr.of(o).concat(self)
         return NotImplemented
 
+    def _all_present(self, pred):
+        """n > 0 and every present character satisfies pred"""
+        return SBool(z3.And(self.n != zI(0), *[z3.Or(x == zI(0), pred(x)) for x in self.codes]))
+
+    def isdigit(self):
+        return self._all_present(lambda x: z3.And(x >= zI(48), x <= zI(57)))
+
+    def isspace(self):
+        return self._all_present(is_ws)
+
+    def isalpha(self):
+        return self._all_present(lambda x: z3.Or(z3.And(x >= zI(65), x <= zI(90)), z3.And(x >= zI(97), x <= zI(122))))
+
+    def isalnum(self):
+        return self._all_present(lambda x: z3.Or(z3.And(x >= zI(48), x <= zI(57)), z3.And(x >= zI(65), x <= zI(90)), z3.And(x >= zI(97), x <= zI(122))))
+
+    def isnumeric(self): return self.isdigit()
+    def isdecimal(self): return self.isdigit()
+
     def startswith(self, p):
         p = BStr.of(p)
         k = p.cap
